@@ -68,7 +68,7 @@ def run_entry(repo, qual: str, sc: Scenario):
     def new_algebra(name):
         a = Obj("algebra", {"wrapper": (Obj("wrapper", call=lambda f: f) if sc.wrapper else None),
                             "simp_func": (Obj("simp_func", call=lambda v: v) if sc.simp_func else None),
-                            "numspace": numspace, "fmt": name})
+                            "numspace": numspace, "fmt": name, "codegen_symbolcls": None})
         a.methods["compare"] = alg_compare(a)
         return a
     alg = new_algebra("ALG")
